@@ -13,6 +13,7 @@ import (
 	"os"
 	"os/exec"
 	"runtime"
+	"runtime/debug"
 	"sync"
 	"testing"
 )
@@ -86,10 +87,16 @@ func workerMain(t *testing.T) {
 	bw := bufio.NewWriterSize(out, 1<<16)
 	enc := gob.NewEncoder(bw)
 	var cfgs []*config
+	debug.SetGCPercent(100) // many workers share the machine; replays allocate little that survives
 	for {
 		var tier string
 		var jobs []wireJob
 		if err := dec.Decode(&tier); err != nil {
+			// end of work: the reference blocks must not have been mutated through the copies handed to juno
+			if bad := universeIntact(); bad != "" {
+				fmt.Fprintln(os.Stderr, "C06 worker: reference block mutated by the system under test:", bad)
+				os.Exit(3)
+			}
 			return
 		}
 		if err := dec.Decode(&jobs); err != nil {
@@ -153,11 +160,15 @@ func newPool(tier string) (*pool, error) {
 	return p, nil
 }
 
-func (p *pool) close() {
+func (p *pool) close() error {
+	var first error
 	for _, w := range p.ws {
 		w.in.Close()
-		w.cmd.Wait()
+		if err := w.cmd.Wait(); err != nil && first == nil {
+			first = err
+		}
 	}
+	return first
 }
 
 // run replays every node; results[i].infra=="timeout" for nodes skipped because stop() became true.
